@@ -150,11 +150,19 @@ def c03translated (B A M : Nat) (sel : Bytes → Bool) (raw : List Bytes) : Opti
   | .ok f => some (f.lines.map fun l => match l with | .new c _ _ _ => c | .null => [])
   | _ => none
 
+/-- tie G: `filterWithoutLContext` as translated from the working tree on this run (no context option): the numbered lines -/
+def c03plain (sel : Bytes → Bool) (raw : List Bytes) : List (Nat × Bytes) :=
+  let ext : Go.Ext := { parseFloat := fun _ => (0, none), reMatch := fun _ l => sel l }
+  (Gen.Fs.readFile.filterWithoutLContext ext {} () raw () {}).lines.map fun l => match l with
+    | .new c n _ _ => (n.toNat, c)
+    | .null => (0, [])
+
 def opC03Grep (a : List String) : Res :=
   match c03common a with
   | some (_, B, A, M, f, eng, raw, _, _) =>
     let out := dgrepLines B A M f eng raw
-    let genBad := (B > 0 ∨ A > 0 ∨ M > 0) ∧ c03translated B A M (fun l => matchFlag f (eng l)) raw != some (out.map (·.2))
+    let genBad := ((B > 0 ∨ A > 0 ∨ M > 0) ∧ c03translated B A M (fun l => matchFlag f (eng l)) raw != some (out.map (·.2)))
+      ∨ (B = 0 ∧ A = 0 ∧ M = 0 ∧ c03plain (fun l => matchFlag f (eng l)) raw != out)
     let lsSpec := raw.map (fun l => (matchFlag f (eng (chomp l)), l))
     let spec := grepSpec B A M (blocks lsSpec).1 (blocks lsSpec).2
     { m := if genBad then "TRANSLATED-FILTER-DIFFERS-FROM-MODEL" else joinWith "," (out.map (fun (n, l) => s!"{n}:{hexOf l}")),
